@@ -4,10 +4,10 @@
 // universe is executed on a real tsi1.Index (+ real series file) in a fresh directory; after every step every
 // metadata query is compared with the model "set of live series".
 //
-// Split for the crash-image engine:
-//   - PerformHistory = history writer (op list on a directory, Begin/Ack through an Acker);
+// Split used by the crash family (engine crashfs, see "crash family" below):
+//   - PerformHistory = history writer (op list on a directory, Begin/Ack through an Acker), run under strace;
 //   - CheckRecovery  = recovery checker (open the directory with the real code, ReadIndex, Compare with the
-//     model of acknowledged ops (+ one op in flight)).
+//     model of acknowledged ops (+ one op in flight)), run on every prefix / torn / unsynced image.
 package c14
 
 import (
@@ -913,8 +913,13 @@ func CheckRecovery(dir string, cfg Cfg, e Expect, n *IDNames, probe string, repo
 		// before and after it
 		lo, hi := inflightBounds(e.M, *e.InFlight)
 		best = CompareBounds(got, Expected(lo), Expected(hi))
+		// "extra" is now relative to hi: the class features (is the measurement still live?) are those of hi
+		judged := *settled
+		judged.Live = hi
+		report("restart", best, &judged, lay, got)
+	} else {
+		report("restart", best, settled, lay, got)
 	}
-	report("restart", best, settled, lay, got)
 	m := *settled
 	for _, op := range ProbeOps(probe) {
 		if err := w.Exec(op); err != nil {
@@ -1807,10 +1812,10 @@ func crashRecoverOne(it crashRecItem) (o CrashObs) {
 	for id, i := range it.Past {
 		names.name[id] = "S" + strconv.Itoa(i) + "'"
 	}
+	// always wait for the compactions the restart itself starts (a log file left behind by an interrupted
+	// compaction is compacted right after Open): the probe ops and queries then see a quiescent index
 	rcfg := it.Cfg
-	if rcfg.MaxLog > 0 {
-		rcfg.Settle = true
-	}
+	rcfg.Settle = true
 	seen := map[string]bool{}
 	collect := func(prefix string) func(stage string, fails []*Fail, mm *Model, lay string, got *View) {
 		return func(stage string, fails []*Fail, mm *Model, lay string, got *View) {
@@ -1935,25 +1940,53 @@ var manifestTmpRe = regexp.MustCompile(`MANIFEST[0-9]+`)
 // normPath removes the random suffix of the manifest's temporary file name.
 func normPath(p string) string { return manifestTmpRe.ReplaceAllString(p, "MANIFEST.tmp") }
 
-// prefixDigest pins the part of a log a descriptor depends on: every event up to the cut (and the torn write) with
-// paths, offsets and payload bytes. Two recordings with equal digests give byte-identical images.
-func prefixDigest(l *crashfs.Log, d crashfs.Descriptor) string {
-	n := d.Cut
-	if d.TornLen >= 0 && d.TornEvent >= n {
-		n = d.TornEvent + 1
-	}
-	if n > len(l.Events) {
-		return "log-too-short"
-	}
+// contentKey identifies the directory content of an image independently of the manifest's temporary file name.
+func contentKey(im *crashfs.Image) string {
 	h := sha256.New()
-	for i := 0; i < n; i++ {
-		e := &l.Events[i]
-		fmt.Fprintf(h, "%s|%s|%s|%d|%d|%d|%x|", e.Op, normPath(e.Path), normPath(e.Path2), e.Ino, e.Off, e.Size, sha256.Sum256(e.Data))
-		if e.Marker != nil {
-			fmt.Fprintf(h, "%s|%d|%s|", e.Marker.Kind, e.Marker.K, e.Marker.Payload)
+	first := map[int]int{}
+	for i, f := range im.Files {
+		fmt.Fprintf(h, "%s|%v|", normPath(f.Path), f.Dir)
+		if f.Dir {
+			continue
+		}
+		if j, ok := first[f.Ino]; ok {
+			fmt.Fprintf(h, "link%d|", j)
+			continue
+		}
+		first[f.Ino] = i
+		d := f.Data
+		if int64(len(d)) > f.Size {
+			d = d[:f.Size]
+		}
+		for len(d) > 0 && d[len(d)-1] == 0 {
+			d = d[:len(d)-1]
+		}
+		fmt.Fprintf(h, "%d|%d|", f.Size, len(d))
+		h.Write(d)
+	}
+	return hex.EncodeToString(h.Sum(nil)[:12])
+}
+
+func ctxKey(cx crashCtx) string { return fmt.Sprintf("%d/%s/%d", cx.NAcked, cx.Infl, cx.InflI) }
+
+// findImage locates the image of a recorded case in a (possibly different) recording of the same history: by its
+// descriptor if that still names the same content and context, else by searching all images of the log (the series
+// file writes its partitions from concurrent goroutines, so the event order of two recordings may differ).
+func findImage(l *crashfs.Log, cs *CrashCase) (*crashfs.Image, crashCtx, bool) {
+	if im, err := l.Build(cs.Desc, crashImgOpts); err == nil {
+		if cx, err := contextOf(im); err == nil && contentKey(im) == cs.Content && ctxKey(cx) == cs.Ctx {
+			return im, cx, true
 		}
 	}
-	return hex.EncodeToString(h.Sum(nil)[:8])
+	for im := range l.Images(crashImgOpts, nil) {
+		if contentKey(im) != cs.Content {
+			continue
+		}
+		if cx, err := contextOf(im); err == nil && ctxKey(cx) == cs.Ctx {
+			return im, cx, true
+		}
+	}
+	return nil, crashCtx{}, false
 }
 
 var (
@@ -1969,26 +2002,30 @@ func crashHistoryKey(h CrashHistory) string {
 	return string(b)
 }
 
-func findCrashLog(scratch string, h CrashHistory, d crashfs.Descriptor, digest string) (*crashfs.Log, string) {
+// findCrashImage returns a recording of the history that contains the image of the case, and that image.
+func findCrashImage(scratch string, cs *CrashCase) (*crashfs.Image, crashCtx, string) {
+	h := cs.History
 	crashLogMu.Lock()
 	l := crashLogCache[crashHistoryKey(h)]
 	crashLogMu.Unlock()
-	if l != nil && (digest == "" || prefixDigest(l, d) == digest) {
-		return l, ""
+	if l != nil {
+		if im, cx, ok := findImage(l, cs); ok {
+			return im, cx, ""
+		}
 	}
 	for try := 0; try < 6; try++ {
 		l, err := recordCrashHistory(scratch, h)
 		if err != nil {
-			return nil, "recording failed: " + err.Error()
+			return nil, crashCtx{}, "recording failed: " + err.Error()
 		}
-		crashLogMu.Lock()
-		crashLogCache[crashHistoryKey(h)] = l
-		crashLogMu.Unlock()
-		if digest == "" || prefixDigest(l, d) == digest {
-			return l, ""
+		if im, cx, ok := findImage(l, cs); ok {
+			crashLogMu.Lock()
+			crashLogCache[crashHistoryKey(h)] = l
+			crashLogMu.Unlock()
+			return im, cx, ""
 		}
 	}
-	return nil, "could not re-record a log with the same event prefix (the history is not deterministic enough for this descriptor)"
+	return nil, crashCtx{}, "could not re-record a log that contains the image of this case (the history is not deterministic enough)"
 }
 
 const isolatedTimeout = 90 * time.Second
@@ -2125,7 +2162,8 @@ func recoverAll(scratch string, h CrashHistory, items []crashItem, expired func(
 type CrashCase struct {
 	History CrashHistory       `json:"history"`
 	Desc    crashfs.Descriptor `json:"image"`
-	Digest  string             `json:"log_prefix_digest"`
+	Content string             `json:"image_content"` // contentKey of the image: a re-recording is searched for it
+	Ctx     string             `json:"ack_context"`   // acknowledged ops / op in flight at the cut
 	Cut     string             `json:"cut_description"`
 	Want    string             `json:"want"` // the violation class this case was recorded for
 }
@@ -2162,9 +2200,17 @@ func cutClass(im *crashfs.Image) string {
 // crashSigs turns an observation into (signature, stage, detail) triples. Stale "extra" entries keep the
 // signature of the sequential part (the registered by-design staleness of tsi1 matches them; only new classes
 // alarm); everything else — a missing live series, a failing open or query, a panic, a dead recovery process —
-// gets a crash/ signature with the kind of cut, the op in flight and what was happening at the cut.
+// gets a crash/ signature with the kind of op in flight and the kind of file the cut lies in.
 func crashSigs(o *CrashObs, im *crashfs.Image, cx crashCtx) (out [][3]string) {
-	ctx := vlib.JoinSig("cut="+im.Desc.Kind, "inflight="+cx.Infl, "at="+cutClass(im))
+	infl := cx.Infl
+	if strings.HasPrefix(infl, "drop") {
+		infl = "drop" // dropS / dropI / dropM / dropMd write the same kinds of log entries
+	}
+	at := fileClass(im.NextPath)
+	if at == "" {
+		at = "between-ops"
+	}
+	ctx := vlib.JoinSig("inflight="+infl, "at="+at)
 	switch {
 	case o.Died != "":
 		return [][3]string{{vlib.JoinSig("crash", "recovery-died", ctx), "restart", "the recovery process did not survive the crash image: " + o.Died}}
@@ -2289,7 +2335,7 @@ func crashHistoryRun(c *vlib.Ctx, scratch string, h CrashHistory) (stop bool) {
 		for _, sg := range sigs {
 			c.Violation(sg[0],
 				fmt.Sprintf("crash history %s, image %s; acknowledged model %s, in flight: %s — stage %s: %s", h, cutDesc, cx.M.key(), inflStr(cx), sg[1], sg[2]),
-				Case{Crash: &CrashCase{History: h, Desc: im.Desc, Digest: prefixDigest(l, im.Desc), Cut: cutDesc, Want: sg[0]}})
+				Case{Crash: &CrashCase{History: h, Desc: im.Desc, Content: contentKey(im), Ctx: ctxKey(cx), Cut: cutDesc, Want: sg[0]}})
 		}
 		if len(sigs) == 0 && !sampled && c.WantSample() && im.Desc.Kind == crashfs.KindT && liveN(cx.M) > 0 && cx.InFl != nil {
 			sampled = true
@@ -2352,24 +2398,16 @@ func replayCrash(cs *CrashCase) (bool, string) {
 	scratch := vlib.Scratch("c14cr-")
 	defer os.RemoveAll(scratch)
 	h := cs.History
-	l, msg := findCrashLog(scratch, h, cs.Desc, cs.Digest)
-	if l == nil {
+	im, cx, msg := findCrashImage(scratch, cs)
+	if im == nil {
 		return false, msg
-	}
-	im, err := l.Build(cs.Desc, crashImgOpts)
-	if err != nil {
-		return false, "cannot rebuild the image: " + err.Error()
-	}
-	cx, err := contextOf(im)
-	if err != nil {
-		return false, err.Error()
 	}
 	dir, _ := os.MkdirTemp(scratch, "img-")
 	res, out, err := runCrashRecovery(dir, h, []crashItem{{im, cx}}, isolatedTimeout)
 	if err != nil {
 		return false, "recovery could not be run: " + err.Error()
 	}
-	obs := fmt.Sprintf("crash history %s image %v (at the cut: %s %s; acknowledged model %s, in flight: %s): ", h, cs.Desc, im.NextOp, im.NextPath, cx.M.key(), inflStr(cx))
+	obs := fmt.Sprintf("crash history %s image %s (content %s; acknowledged model %s, in flight: %s): ", h, normPath(cs.Cut), cs.Content, cx.M.key(), inflStr(cx))
 	o := res["0"]
 	if o == nil {
 		o = &CrashObs{ID: "0", Died: deathClass(out)}
@@ -2407,12 +2445,12 @@ func TestCheck(t *testing.T) {
 				return
 			}
 			for _, e := range l.Events {
-				n := len(e.Data)
+				n, sum := len(e.Data), sha256.Sum256(e.Data)
 				if len(e.Data) > 16 {
 					e.Data = e.Data[:16]
 				}
 				b, _ := json.Marshal(e)
-				fmt.Println(n, string(b))
+				fmt.Println(n, hex.EncodeToString(sum[:4]), string(b))
 			}
 			return
 		}
@@ -2427,7 +2465,7 @@ func TestCheck(t *testing.T) {
 			"After EVERY op, after a final restart, and after each of three probe ops on the restarted index (create all 6 series; engine delete of m0; of m1 — index-only drops in the shared families) every metadata query is compared with the view of the model's live series: MeasurementIterator, MeasurementExists(m); TagKeyIterator(m), HasTagKey(m,k); TagValueIterator(m,k), HasTagValue(m,k,v) on the Index; MeasurementSeriesIDIterator(m), TagKeySeriesIDIterator(m,k), TagValueSeriesIDIterator(m,k,v) through tsdb.IndexSet{index, series file} (ids mapped back to series) for both measurements, both keys, both values (also for measurements/keys/values that no longer exist: expected empty/false). A history is executed to its end; every distinct violation class it shows is recorded. " +
 			"State = model state (per series live / dropped-but-still-in-series-file / absent) + file layout per partition (log empty/non-empty, index file levels); transition = one executed op; trace = one complete history validated on the implementation. Non-trivial = histories containing a create (distinct by construction), executions with >= 1 preemption. " +
 			"SCHEDULE PART (thorough tier only, with the wall budget the sequential families leave; the evidence names the phase it stopped in): log threshold 1, 1 partition, nothing awaited between calls; initial index content in {empty, create{S0..S3}, create{S0..S3}+dropS S2} (fully compacted), ONE writer thread running every program of length 1 (then 2) over {create{S0},{S2},{S0..S3}, dropS S2, dropM m0} against the partition's own goroutines (checkLogFile -> go Compact -> go compactLogFile / compactToLevel, manifest swap, file removal), which are started by the writer's calls; phases: every schedule with 0 preemptions (all orders of goroutines at blocking points), then <= 1 preemption for length 1, then <= 1 for length 2, at every Lock/RLock of tsi1/partition.go and tsi1/log_file.go (vsched: baton passing inside a synctest bubble; atomics/Once pass silently). When the writer has finished, all compactions are awaited and every query is compared with the writer's model; then restart + probe as above. A class seen only under a schedule other than the preemption-free one is reported as schedule-dependent/<class>; deadlock and step-cap are violations. For the schedule part states = decision nodes of the schedule trees, transitions = scheduling steps, traces = executions. " +
-			"Crash images are NOT part of this run.",
+			"CRASH FAMILY (additional clause, engine crashfs; counted under the crash_* coverage keys and the crash:* outcomes, not under states/transitions/traces; limited to half of the wall budget): histories performed by a writer subprocess (PerformHistory on the real Index + series file, GOMAXPROCS=1) under strace with BEGIN/ACK markers around the initial open of the empty directory and every op; the process exits without closing. Quick: 4 hand-picked histories, every cut (log-appends [create{S0..S3}, dropS S2, create{S4}, dropM m0, create{S0}] with the default log threshold, plus the initial open; shared [create{S0..S3}, dropI S0, reopen, create{S0}, dropI{S0..S3}]; compact [create{S0..S5}, compact (log -> L1 .tsi written and synced, manifest tmp written, synced, renamed, log removed), dropS S2, dropMd m1, create{S2}]; auto-compact (log threshold 1, compaction awaited inside the op) [create{S0,S2}, dropS S2]), split into 13 work items by op window (each item re-records the history and evaluates the cuts of its ops only). Thorough: one work item per op, compact with a second compaction (L1+L1 -> L2), auto-compact with 3 ops, reopen-drop, mid (threshold 40 bytes, 2 partitions), plus EVERY sequence of length 1..2 over the 8-op crash alphabet {create{S0},{S2},{S0..S3}, dropS S2, dropM m0, dropMd m0, reopen, compact} (cuts of the last op only). Per history every prefix of the syscall-level event list (P), every torn length 1..n-1 of the write in flight (T; quick: writes longer than 128 bytes, i.e. manifest and .tsi files, get {1..64, every 512th, last 64}; log-file writes are all shorter), and for the sync classes (*.tsl log files, MANIFEST*, *.tsi) the images with un-fsynced data dropped or its last write torn (U); directory operations in program order; images deduplicated by (content, acknowledged ops, op in flight). One evaluation = one (image, acknowledgement context) recovered in a fresh subprocess by CheckRecovery with compactions awaited: real SeriesFile.Open + Index.Open on the image, every metadata query; then the three probe ops (create all 6 series; engine delete of m0; of m1 — index-only drops for the shared history) with every query after each; then a second restart and every query again. Crash oracle: Open and every query succeed; with no op in flight the answers equal the view of the acknowledged live series; with an op in flight the answers equal the view before the op, after it, or after applying it to a subset of its series, or else every single answer lies between the live series before and after the op (its log entries are not written atomically); after each probe op and after the second restart the answers equal the model exactly. A stale item (\"extra\") is reported under the sequential part's signature (the registered by-design staleness of tsi1 matches it); a missing item, a failing open/query/op, a panic or a dead recovery process gets a crash/ signature (clause, stage, kind of op in flight, kind of file the cut lies in). Non-trivial crash case = at least one acknowledged live series or a create in flight.",
 		Assumptions: []string{
 			"series sets are read through tsdb.IndexSet (the reader every consumer of a shard's index uses), which removes ids the series file reports as deleted; the raw Index iterators are known to keep such ids by design (Case.Raw reads them for diagnosis only)",
 			"a series drop is the engine's call sequence (tsm1.Engine.deleteSeriesRange): DropSeries(cascade=false) + DropMeasurementIfSeriesNotExist + SeriesFile.DeleteSeriesID; the dropI ops omit the last call exactly as the engine does when another shard of the database still contains the series",
@@ -2435,6 +2473,9 @@ func TestCheck(t *testing.T) {
 			"names, keys and values are compared as sets (a duplicate is reported as extra); order is not judged",
 			"schedule part: sequentially consistent interleavings at sync/atomic granularity of partition.go and log_file.go only (index.go, index_file.go, the series file keep the real sync package and run atomically between two points); queries are made at quiescence only (no reader thread), one writer",
 			"the tag-value series-id cache of the Index is warm (every step queries every tag value), as on a server that answers queries between writes",
+			"crash family: ordered-metadata crash model (creates/renames/unlinks persist in program order; data of sync-class files may be lost back to the last fsync = U images; a write in flight may persist any byte prefix = T images); event order = syscall completion order (the series file writes its partitions from concurrent goroutines: a replay searches its own recording for the image by content)",
+			"crash family: the series-file segments are not a sync class here (their durability is C13's business): their data is never dropped, only cut by P/T images",
+			"crash family: the recovery checker waits for the compactions the restart itself starts before it reads or probes (quiescent index)",
 		},
 		Run: func(c *vlib.Ctx) {
 			runCrash(c) // crash family first: of fixed size and limited to half of the budget
